@@ -343,6 +343,15 @@ def num_or_nan(x):
     return float('nan')                       # not a number (never equal to a model value)
 
 
+def private_flag(solver):
+    """the solver's private lock flag, when an attribute of that meaning can be found (it is not part of the public interface)"""
+    v = getattr(solver, '_Solver__powertrain_is_locked', None)
+    if isinstance(v, bool):
+        return v
+    cands = [x for k, x in vars(solver).items() if 'lock' in k.lower() and isinstance(x, bool)]
+    return cands[0] if len(cands) == 1 else None
+
+
 def complete_instants(pt, els):
     """number of instants every list holds a sample for (an exception in the middle of an instant leaves ragged lists)"""
     n = len(pt.time)
@@ -440,7 +449,7 @@ def run_impl(sc, timeout=20, keep_objects=False):
                 res['part'] = []
         if res['err'] is None:
             res['rows'] = history(pt, els)
-            res['locked'] = bool(solver._Solver__powertrain_is_locked)
+            res['locked'] = private_flag(solver)
         if keep_objects:
             res['objects'] = (pt, els, solver)
     except Timeout:
@@ -528,7 +537,7 @@ def case_coq(sc, res):
         segs[-1][1].extend(cur)
     more = clist([f'({cload(l)}, {clist([cop(o) for o in ops])})' for l, ops in segs])
     if res['err'] is None:
-        exp = f'(EHist {clist([crow(r) for r in res["rows"]])} {"true" if res["locked"] else "false"})'
+        exp = f'(EHist {clist([crow(r) for r in res["rows"]])} {"None" if res["locked"] is None else ("(Some true)" if res["locked"] else "(Some false)")})'
     elif res['err'].startswith('Other'):
         exp = f'(EErr OracleMiss {clist([crow(r) for r in res["part"]])})'
     else:
